@@ -45,12 +45,31 @@ type keySpec struct {
 }
 
 func secretOf(sec int) string { return fmt.Sprintf("secret-%d", sec) }
-func idOf(name int) string   { return fmt.Sprintf("id-%d", name) }
+// emptyName: the name token of the key that is configured WITHOUT an id (both config formats allow it): its ID is "".
+const emptyName = 99
 
-// nameOfID: "id-7" -> 7, "" -> 0, anything else -> -1
+func idOf(name int) string {
+	if name == emptyName {
+		return ""
+	}
+	return fmt.Sprintf("id-%d", name)
+}
+
+// debugLogger: what -verbose gives the service: a DEBUG-level logger (output discarded)
+func debugLogger(on bool) *slog.Logger {
+	if !on {
+		return nil
+	}
+	return slog.New(slog.NewTextHandler(io.Discard, &slog.HandlerOptions{Level: slog.LevelDebug}))
+}
+
+// nameOfID maps the ID string of an ENTRY the real code returned / reported back to the name token: "id-7" -> 7,
+// "" -> emptyName, anything else -> -1.  It is only called where the real code did return an entry (authenticator
+// error == nil, AddAuthenticated called): "no key" and "the key with the empty id" are told apart by that, never by
+// the string.
 func nameOfID(id string) int {
 	if id == "" {
-		return 0
+		return emptyName
 	}
 	if strings.HasPrefix(id, "id-") {
 		if n, err := strconv.Atoi(id[3:]); err == nil {
@@ -284,7 +303,7 @@ type server struct {
 }
 
 // cacheMode: "nil" (no replay cache object), "zero" (capacity 0), "on" (capacity 10000)
-func newServer(cacheMode string, timeout time.Duration, gateMark, recSnap, memTgt bool) *server {
+func newServer(cacheMode string, timeout time.Duration, gateMark, recSnap, memTgt, debug bool) *server {
 	s := &server{reg: newRegistry(), timeout: timeout, byAddr: map[string]*connRec{}, byID: map[int]*connRec{}, memTgt: memTgt}
 	s.cond = sync.NewCond(&s.mu)
 	s.ctx, s.cancel = context.WithCancel(context.Background())
@@ -307,7 +326,7 @@ func newServer(cacheMode string, timeout time.Duration, gateMark, recSnap, memTg
 	default:
 		fatal("cache mode %q", cacheMode)
 	}
-	auth := service.NewShadowsocksStreamAuthenticator(s.cl, cache, nil, nil)
+	auth := service.NewShadowsocksStreamAuthenticator(s.cl, cache, nil, debugLogger(debug))
 	wrapped := func(c transport.StreamConn) (string, transport.StreamConn, *onet.ConnectionError) {
 		id, inner, err := auth(c)
 		rec := s.lookup(c.RemoteAddr().String())
@@ -324,6 +343,9 @@ func newServer(cacheMode string, timeout time.Duration, gateMark, recSnap, memTg
 	}
 	s.handler = service.NewStreamHandler(wrapped, timeout)
 	s.handler.SetTargetDialer(&recDialer{s})
+	if debug {
+		s.handler.SetLogger(debugLogger(true))
+	}
 
 	var err error
 	s.ln, err = net.ListenTCP("tcp", &net.TCPAddr{IP: net.IPv4(127, 0, 0, 1)})
